@@ -197,8 +197,13 @@ def c04(name, text, claim, variant):
 
 
 # ---------------------------------------------------------------- C11
-def c11(name, text, mi, k):
-    f = PARSER.parse(text, models.File)
+def token_state(t):
+    """everything a token carries besides its text"""
+    return (type(t).__name__, t.raw_text, getattr(t, 'claimed', None), getattr(t, 'indent', None), getattr(t, 'value', None) if hasattr(type(t), 'value') else None)
+
+
+def c11(name, text, mi, k, claim=True):
+    f = PARSER.parse(text, models.File, auto_claim_comments=claim)
     ms = docops.tree_models(f)
     if mi >= len(ms): return None
     m = ms[mi]
@@ -209,6 +214,10 @@ def c11(name, text, mi, k):
     if pr(c) != pr(m): return f'deepcopy prints {pr(c)!r}, original spans {pr(m)!r}'
     if {id(t) for t in c.token_store} & {id(t) for t in f.token_store}: return 'copy shares a token with the original'
     if tree.store_text(c.token_store) != pr(m): return f'copy store holds {tree.store_text(c.token_store)!r}, not exactly the span'
+    a_, b_ = [token_state(t) for t in m.tokens], [token_state(t) for t in c.tokens]
+    if a_ != b_:
+        d_ = next((x, y) for x, y in zip(a_, b_) if x != y)
+        return f'copy differs from the original in the state of a token: {d_[0]} vs {d_[1]}'
     v = tree.valid(c)
     if v: return 'copy is not a valid tree in its own store: ' + v
     if isinstance(m, base.RawTreeModel) and c.token_store is f.token_store: return 'copy lives in the original store'
@@ -320,6 +329,13 @@ def run(prop, tier, seed):
             mk = re.match(r'CLAIMVALID\[([^\]]*)\]', msg)
             k_ = f'claim-bfs-valid:{mk.group(1)}:{re.sub(r"[0-9]+", "N", msg.split("tree invalid: ")[-1])[:60]}' if mk else f'{key[1]}:{re.sub(r"[0-9]+", "N", re.sub(chr(39) + r"[^" + chr(39) + r"]*" + chr(39), "S", msg))[:90]}'
             rep.fail(k_, msg, dict(prop=prop, key=list(key)))
+    if prop == 'C01':
+        def c01_variant(name, text, claim):
+            try: PARSER.parse(text, models.File, auto_claim_comments=claim)
+            except Exception: return None       # a variant this parser does not accept: not a sentence, skipped
+            return c01(name, text, claim)
+        for name, text in corpus.eol_variants():
+            for claim in (True, False): do((name, 'c01', claim), c01_variant, name, text, claim)
     for name, text in docs:
         if prop == 'C01':
             for claim in (True, False): do((name, 'c01', claim), c01, name, text, claim)
@@ -335,6 +351,10 @@ def run(prop, tier, seed):
             step = 1 if tier == 'thorough' else max(1, n // 12)
             for mi in range(0, n, step):
                 for k in ((0, 7, 13) if tier == 'thorough' else (rnd.randrange(50),)): do((name, 'c11', mi, k), c11, name, text, mi, k)
+            # the same with comments left unattributed (their `claimed` flag is then False and must be copied as such)
+            if ';' in text:
+                n2 = len(docops.tree_models(PARSER.parse(text, models.File, auto_claim_comments=False)))
+                for mi in range(0, n2, max(1, n2 // 6)): do((name, 'c11', mi, 3, False), c11, name, text, mi, 3, False)
         elif prop == 'C20':
             for k in range(6 if tier == 'quick' else 25):
                 do((name, 'c20', k), c20, name, text, k * 7 + 1)
@@ -345,7 +365,7 @@ def run(prop, tier, seed):
 
 
 def replay_case(case):
-    key = case['key']; name = key[0]; text = dict(corpus.documents())[name]
+    key = case['key']; name = key[0]; text = dict(corpus.documents() + corpus.eol_variants())[name]
     CHECK_VALID[0] = case.get('prop') in ('C05', 'C14')
     fn = {'c01': c01, 'c04': c04, 'c11': c11, 'c20': c20, 'c20-children': c20_children, 'c20-ownership': c20_ownership}[key[1]]
     return fn(name, text, *key[2:])
